@@ -596,8 +596,34 @@ fn mn_sweep(seed: u64, idx: u64, stats: &mut Counters) -> Option<(MnConfig, u64,
         girth_trials: *g.pick(&[2usize, 5, 20]),
         fill_policy: if many_rows || g.chance(1, 3) { FillPolicy::Uniform } else { FillPolicy::Random },
     };
+    // (one in four: small, exactly tight, light columns, a girth limit, backtracking over several
+    // columns and many seeds — where a column that is drawn again after backtracking often draws
+    // the very row set it had before: seeded change C16-r9-3 keeps a per-column memo of row sets
+    // that passed the girth test and does not invalidate it when earlier columns change)
+    let small_tight = !many_rows && g.chance(1, 3);
+    let conf = if small_tight {
+        let nrows = 4 + g.below(6) as usize;
+        let wr = 2 + g.below(3) as usize;
+        let wc = 2;
+        MnConfig {
+            nrows,
+            ncols: nrows * wr / wc,
+            wr,
+            wc,
+            backtrack_cols: 2 + g.below(3) as usize,
+            backtrack_trials: *g.pick(&[20usize, 100, 400]),
+            min_girth: Some(*g.pick(&[6usize, 6, 8])),
+            girth_trials: *g.pick(&[2usize, 5, 20]),
+            fill_policy: if g.chance(1, 4) { FillPolicy::Uniform } else { FillPolicy::Random },
+        }
+    } else {
+        conf
+    };
+    if small_tight {
+        stats.inc("MacKay-Neal sweep: small exactly tight configuration, 96 seeds");
+    }
     let s0 = g.below(100_000);
-    for s in s0..s0 + if many_rows { 4 } else { 24 } {
+    for s in s0..s0 + if many_rows { 4 } else if small_tight { 96 } else { 24 } {
         match conf.run(s) {
             Ok(h) => {
                 stats.inc("matrices checked (MacKay-Neal sweep on larger configurations)");
